@@ -323,43 +323,62 @@ def cferBatch (s : St α) : List (Cand α) :=
 
 def cferFinishDefeats (s : St α) (defeats : List (Cand α)) : St α × Flow :=
   if s.hopeful.length + s.elected.length ≤ s.seats then
-    let s1 := s.pendingL.foldl (fun acc c => acc.elect A c.cid "Elect pending" false) s
-    (s1.hopeful.foldl (fun acc c => acc.elect A c.cid "Elect remaining" false) s1, .brk)
+    ((s.pendingL.foldl (fun acc c => acc.elect A c.cid "Elect pending" false) s).hopeful.foldl
+        (fun acc c => acc.elect A c.cid "Elect remaining" false)
+        (s.pendingL.foldl (fun acc c => acc.elect A c.cid "Elect pending" false) s), .brk)
   else (transferDefeated A s (defeats.map (·.cid)) "Transfer defeated", .cont)
 
+/-- round 1 with no more hopefuls than seats: everybody is elected -/
+def cferElectAll (s : St α) : St α × Flow :=
+  (s.hopeful.foldl (fun acc c => acc.elect A c.cid "Elect all" false) s, .brk)
+
+/-- election step: at or above the quota; a surplus transfer is pending only above it -/
+def cferElect (s : St α) : St α :=
+  electWinners A (hasQuotaGE A) (fun st c => A.gt c.vote st.quota)
+    (fun st c => if A.gt c.vote st.quota then "Elect, transfer pending" else "Elect") s
+
+/-- all seats filled: the rest are defeated -/
+def cferSeatsFull (s : St α) : St α × Flow :=
+  ((s.pendingL.foldl (fun acc c => acc.unpendSilent c.cid) s).hopeful.foldl
+      (fun acc c => acc.defeat A c.cid "Defeat remaining") (s.pendingL.foldl (fun acc c => acc.unpendSilent c.cid) s), .brk)
+
+def cferDefeatBatch (s : St α) (defeats : List (Cand α)) : St α × Flow :=
+  cferFinishDefeats A ((byBallotOrder defeats).foldl (fun acc c => acc.defeat A c.cid "Defeat batch") s) defeats
+
+/-- one pending surplus: `c.unpend('Transfer surplus')`, then the transfer computed from the candidate's *current* vote -/
+def cferSurplusOne (acc : St α) (c : Cand α) : St α :=
+  match acc.cand? c.cid with
+  | some cur => transferSurplus A (acc.unpendLog A c.cid "Transfer surplus") cur (rewMulDiv A) "Surplus transferred"
+  | none => acc
+
+/-- CfER transfers every pending surplus in the same round -/
+def cferSurplusAll (s : St α) : St α := s.pendingL.foldl (cferSurplusOne A) s
+
+def cferDefeatLow (s : St α) : St α × Flow :=
+  match minVoteOf A s.hopeful with
+  | none => (s.setCrash "ValueError", .brk)
+  | some lv =>
+    match breakTie A s (s.hopeful.filter (fun c => A.eq c.vote lv)) "Break tie (defeat)" with
+    | (s3, some lc) => cferFinishDefeats A (s3.defeat A lc.cid "Defeat") [lc]
+    | (s3, none) => (s3, .brk)
+
+/-- the part of a round after the election step -/
+def cferAfterElect (batch : Bool) (s : St α) : St α × Flow :=
+  if s.elected.length ≥ s.seats then cferSeatsFull A s
+  else if !(if batch then cferBatch A s else []).isEmpty then cferDefeatBatch A s (if batch then cferBatch A s else [])
+  else if !s.pendingL.isEmpty then (cferSurplusAll A s, .cont)
+  else cferDefeatLow A s
+
 def cferBody (batch : Bool) (s : St α) : St α × Flow :=
-  let s1 := s.newRound A
-  if s1.round == 1 && s1.hopeful.length ≤ s1.seats then
-    (s1.hopeful.foldl (fun acc c => acc.elect A c.cid "Elect all" false) s1, .brk)
-  else
-  let s2 := electWinners A (hasQuotaGE A) (fun st c => A.gt c.vote st.quota)
-              (fun st c => if A.gt c.vote st.quota then "Elect, transfer pending" else "Elect") s1
-  if s2.elected.length ≥ s2.seats then
-    let s3 := s2.pendingL.foldl (fun acc c => acc.unpendSilent c.cid) s2
-    (s3.hopeful.foldl (fun acc c => acc.defeat A c.cid "Defeat remaining") s3, .brk)
-  else
-  let defeats := if batch then cferBatch A s2 else []
-  if !defeats.isEmpty then
-    cferFinishDefeats A ((byBallotOrder defeats).foldl (fun acc c => acc.defeat A c.cid "Defeat batch") s2) defeats
-  else if !s2.pendingL.isEmpty then
-    (s2.pendingL.foldl (fun acc c =>
-        -- c.unpend('Transfer surplus'); surplus from the candidate's *current* vote
-        match acc.cand? c.cid with
-        | some cur => transferSurplus A (acc.unpendLog A c.cid "Transfer surplus") cur (rewMulDiv A) "Surplus transferred"
-        | none => acc) s2, .cont)
-  else
-    match minVoteOf A s2.hopeful with
-    | none => (s2.setCrash "ValueError", .brk)
-    | some lv =>
-      match breakTie A s2 (s2.hopeful.filter (fun c => A.eq c.vote lv)) "Break tie (defeat)" with
-      | (s3, some lc) => cferFinishDefeats A (s3.defeat A lc.cid "Defeat") [lc]
-      | (s3, none) => (s3, .brk)
+  if (s.newRound A).round == 1 && (s.newRound A).hopeful.length ≤ (s.newRound A).seats then cferElectAll A (s.newRound A)
+  else cferAfterElect A batch (cferElect A (s.newRound A))
+
+def cferInit (s0 : St α) : St α :=
+  ((firstCount A (s0.setQuota (A.add (A.divV (A.ofInt s0.nballots) (A.ofInt (s0.seats + 1))) A.eps))).setExhausted A.zero).logAct A
+    "begin" "Begin Count" []
 
 def cferCount (batch : Bool) (s0 : St α) : Option (St α) :=
-  let s1 := { s0 with quota := A.add (A.divV (A.ofInt s0.nballots) (A.ofInt (s0.seats + 1))) A.eps }
-  let s2 := { firstCount A s1 with exhausted := A.zero }
-  let s3 := s2.logAct A "begin" "Begin Count" []
-  loopN (fun _ => true) (cferBody A batch) (2 * s0.cands.length + 3) s3
+  loopN (fun _ => true) (cferBody A batch) (2 * s0.cands.length + 3) (cferInit A s0)
 
 /-! ## mpls -/
 def mplsSurplusAll (s : St α) (declaredOnly : Bool) : α :=
@@ -382,68 +401,100 @@ def mplsCertainLosers (s : St α) (surplus : α) : List (Cand α) :=
       | _, _ => losers
   byBallotOrder (go 0 sorted.length A.zero [])
 
+/-- `E.surplus = ...; E.logAction('count', ...)` -/
+def mplsCountVotes (s : St α) : St α :=
+  (s.setSurplus (mplsSurplusAll A s true)).logAct A "count" "Count Votes" []
+
+def mplsAtThreshold (s : St α) : List (Cand α) :=
+  (byVote A true s.hopeful).filter (fun c => !c.undeclared && hasQuotaGE A s c)
+
+def mplsElectThreshold (s : St α) : St α × Flow :=
+  ((mplsAtThreshold A s).foldl (fun acc c => acc.elect A c.cid "Candidate at threshold" false) s, .brk)
+
+/-- round 2: all undeclared write-ins; every round: the certain losers (each candidate once) -/
+def mplsDefeatSet (s : St α) : List (Cand α) :=
+  (if s.round == 2 then s.hopeful.filter (·.undeclared) else []) ++
+  (mplsCertainLosers A s (A.add s.surplus
+      (if s.round == 2 then
+        A.sum ((s.ballots.filter (fun b => match b.top with
+                                           | some c => s.isUndeclared c
+                                           | none => false)).map (bvote A))
+       else A.zero))).filter
+    (fun c => !(if s.round == 2 then s.hopeful.filter (·.undeclared) else []).any (fun u => u.cid == c.cid))
+
+def mplsDefeatVerb (c : Cand α) : String :=
+  if c.undeclared then "Defeat undeclared write-in" else "Defeat certain loser"
+
+/-- recompute the reported surplus, then log the transfer -/
+def mplsLogTransfer (s : St α) (verb : String) (subj : List Nat) : St α :=
+  (s.setSurplus (mplsSurplusAll A s false)).logAct A "transfer" verb subj
+
+/-- defeat a set simultaneously, move all their ballots on at unchanged value, zero their tallies -/
+def mplsDefeatMany (s : St α) (l : List (Cand α)) : St α × Flow :=
+  (mplsLogTransfer A
+    ((l.map (·.cid)).foldl (fun acc c => acc.setVote c A.zero)
+      (transferAll A (l.foldl (fun acc c => acc.defeat A c.cid (mplsDefeatVerb c)) s) (l.map (·.cid)) id))
+    "Transfer defeated" (l.map (·.cid)), .cont)
+
+/-- 167.70(c)(1)d: elect the candidate with the largest surplus and transfer it -/
+def mplsElectSurplus (s : St α) (hwq : List (Cand α)) (hv : α) : St α × Flow :=
+  match breakTie A s (hwq.filter (fun c => A.eq c.vote hv)) "Break tie (largest surplus)" with
+  | (s3, some hc) =>
+    (mplsLogTransfer A
+      ((transferAll A (s3.elect A hc.cid "Elect" false) [hc.cid]
+          (fun w => rewMulDiv A w (A.sub hc.vote (s3.elect A hc.cid "Elect" false).quota) hc.vote)).setVote hc.cid
+        (transferAll A (s3.elect A hc.cid "Elect" false) [hc.cid]
+          (fun w => rewMulDiv A w (A.sub hc.vote (s3.elect A hc.cid "Elect" false).quota) hc.vote)).quota)
+      "Transfer surplus" [hc.cid], .cont)
+  | (s3, none) => (s3, .brk)
+
+/-- the ballots of the lowest candidate are not transferred when the defeat ends the count -/
+def mplsAfterDefeatLow (s4 : St α) (lc : Cand α) : St α :=
+  if decide ((s4.hopeful.length : Int) > s4.seatsLeft) then
+    mplsLogTransfer A ((transferAll A s4 [lc.cid] id).setVote lc.cid A.zero) "Transfer defeated" [lc.cid]
+  else s4
+
+/-- 167.70(c)(1)e: defeat the lowest candidate -/
+def mplsDefeatLow (s : St α) : St α :=
+  if decide ((s.hopeful.length : Int) > s.seatsLeft) then
+    match minVoteOf A s.hopeful with
+    | none => s
+    | some lv =>
+      match breakTie A s (s.hopeful.filter (fun c => A.eq c.vote lv)) "Break tie (defeat low candidate)" with
+      | (s3, some lc) => mplsAfterDefeatLow A (s3.defeat A lc.cid "Defeat low candidate") lc
+      | (s3, none) => s3
+  else s
+
+def mplsFinish (s : St α) : St α × Flow :=
+  if decide ((s.hopeful.length : Int) ≤ s.seatsLeft) then (s, .brk) else (s, .cont)
+
+/-- a round after `count` and `New Round`: certain losers, else largest surplus, else lowest candidate -/
+def mplsRound (s : St α) : St α × Flow :=
+  if !(mplsDefeatSet A s).isEmpty then mplsDefeatMany A s (mplsDefeatSet A s)
+  else
+    match (byVote A true s.hopeful).filter (hasQuotaGE A s) with
+    | h :: hs => mplsElectSurplus A s (h :: hs) (A.pyMax h.vote (hs.map (·.vote)))
+    | [] => mplsFinish (mplsDefeatLow A s)
+
 def mplsBody (s : St α) : St α × Flow :=
-  let s1 := ({ s with surplus := mplsSurplusAll A s true }).logAct A "count" "Count Votes" []
-  let hwq := (byVote A true s1.hopeful).filter (fun c => !c.undeclared && hasQuotaGE A s1 c)
-  if s1.elected.length + hwq.length ≥ s1.seats then
-    (hwq.foldl (fun acc c => acc.elect A c.cid "Candidate at threshold" false) s1, .brk)
-  else
-  let s2 := s1.newRound A
-  let undecl := if s2.round == 2 then s2.hopeful.filter (·.undeclared) else []
-  let undeclVotes := if s2.round == 2 then
-      A.sum ((s2.ballots.filter (fun b => match b.top with
-                                          | some c => s2.isUndeclared c
-                                          | none => false)).map (bvote A))
-    else A.zero   -- Python uses int 0 here; E.surplus + 0
-  let defeatC := undecl ++ (mplsCertainLosers A s2 (A.add s2.surplus undeclVotes)).filter
-                              (fun c => !undecl.any (fun u => u.cid == c.cid))
-  if !defeatC.isEmpty then
-    let s3 := defeatC.foldl (fun acc c =>
-                acc.defeat A c.cid (if c.undeclared then "Defeat undeclared write-in" else "Defeat certain loser")) s2
-    let s4 := transferAll A s3 (defeatC.map (·.cid)) id
-    let s5 := defeatC.foldl (fun acc c => acc.setVote c.cid A.zero) s4
-    (({ s5 with surplus := mplsSurplusAll A s5 false }).logAct A "transfer" "Transfer defeated" (defeatC.map (fun (c : Cand α) => c.cid)), .cont)
-  else
-  let hwq2 := (byVote A true s2.hopeful).filter (hasQuotaGE A s2)
-  match hwq2 with
-  | h :: hs =>
-    let hv := A.pyMax h.vote (hs.map (·.vote))
-    match breakTie A s2 (hwq2.filter (fun c => A.eq c.vote hv)) "Break tie (largest surplus)" with
-    | (s3, some hc) =>
-      let s4 := s3.elect A hc.cid "Elect" false
-      let surplus := A.sub hc.vote s4.quota
-      let s5 := transferAll A s4 [hc.cid] (fun w => rewMulDiv A w surplus hc.vote)
-      let s6 := s5.setVote hc.cid s5.quota
-      (({ s6 with surplus := mplsSurplusAll A s6 false }).logAct A "transfer" "Transfer surplus" [hc.cid], .cont)
-    | (s3, none) => (s3, .brk)
-  | [] =>
-    let s3 :=
-      if decide ((s2.hopeful.length : Int) > s2.seatsLeft) then
-        match minVoteOf A s2.hopeful with
-        | none => s2
-        | some lv =>
-          match breakTie A s2 (s2.hopeful.filter (fun c => A.eq c.vote lv)) "Break tie (defeat low candidate)" with
-          | (s3, some lc) =>
-            let s4 := s3.defeat A lc.cid "Defeat low candidate"
-            if decide ((s4.hopeful.length : Int) > s4.seatsLeft) then
-              let s5 := transferAll A s4 [lc.cid] id
-              let s6 := s5.setVote lc.cid A.zero
-              ({ s6 with surplus := mplsSurplusAll A s6 false }).logAct A "transfer" "Transfer defeated" [lc.cid]
-            else s4
-          | (s3, none) => s3
-      else s2
-    if decide ((s3.hopeful.length : Int) ≤ s3.seatsLeft) then (s3, .brk) else (s3, .cont)
+  if (mplsCountVotes A s).elected.length + (mplsAtThreshold A (mplsCountVotes A s)).length ≥ (mplsCountVotes A s).seats then
+    mplsElectThreshold A (mplsCountVotes A s)
+  else mplsRound A ((mplsCountVotes A s).newRound A)
+
+def mplsInit (s0 : St α) : St α :=
+  ((firstCount A (s0.setQuota (A.ofInt (pdiv s0.nballots (s0.seats + 1) + 1)))).setExhausted A.zero).newRound A
+
+def mplsEpilogue (s : St α) : St α :=
+  (if decide ((s.hopeful.length : Int) ≤ s.seatsLeft) then
+      s.hopeful.foldl (fun acc c => acc.elect A c.cid "Elect remaining candidates" false) s
+    else s).hopeful.foldl (fun acc c => acc.defeat A c.cid "Defeat remaining candidates")
+    (if decide ((s.hopeful.length : Int) ≤ s.seatsLeft) then
+      s.hopeful.foldl (fun acc c => acc.elect A c.cid "Elect remaining candidates" false) s
+    else s)
 
 def mplsCount (s0 : St α) : Option (St α) :=
-  let s1 := { s0 with quota := A.ofInt (pdiv s0.nballots (s0.seats + 1) + 1) }
-  let s2 := { firstCount A s1 with exhausted := A.zero }
-  let s3 := s2.newRound A
-  match loopN (fun _ => true) (mplsBody A) (2 * s0.cands.length + 4) s3 with
+  match loopN (fun _ => true) (mplsBody A) (2 * s0.cands.length + 4) (mplsInit A s0) with
   | none => none
-  | some s4 =>
-    let s5 := if decide ((s4.hopeful.length : Int) ≤ s4.seatsLeft) then
-                s4.hopeful.foldl (fun acc c => acc.elect A c.cid "Elect remaining candidates" false) s4
-              else s4
-    some (s5.hopeful.foldl (fun acc c => acc.defeat A c.cid "Defeat remaining candidates") s5)
+  | some s4 => some (mplsEpilogue A s4)
 
 end Droop
